@@ -7,7 +7,7 @@ from spec import hex_of
 from props.C03 import pred_pos, positions  # noqa: F401
 
 OBLIGATION_MODULES = ["PyModeS.Properties.C04"]
-TIE_MODULES = ['PyModeS.Tie.Cpr', 'PyModeS.Tie.Adsb']
+TIE_MODULES = ['PyModeS.Tie.Cpr', 'PyModeS.Tie.Adsb', 'PyModeS.Tie.C03Gen']
 MAIN_THEOREM = "PyModeS.C04.ref_lat / ref_lon / ref_stable"
 RULE = ("true positions (NL transitions, poles, equator, meridians, random) x both parities x airborne/surface x reference offsets "
         "+-{0, 0.5, 0.999, 1-1e-9} of the half zone per axis; non-trivial = all")
